@@ -261,6 +261,7 @@ C16_HeldDelivered ==
 
 MCDenied    == {<<"c1", "B">>}
 MCListening == {<<"A", 1>>, <<"A", 2>>, <<"B", 1>>}
+MCNoListening == {}   \* (slice tcpC: nobody listens, so every connection there is has come in from a peer)
 ASSUME PrintT("META " \o ToJson([Sys |-> "tcp", Denied |-> Denied, Clients |-> Clients, Users |-> Users,
                                  PeerPorts |-> PeerPorts, DefaultLife |-> DefaultLife, PermTO |-> PermTO,
                                  Fam |-> [i \in PeerIPs |-> 4],
